@@ -518,6 +518,13 @@ def m_set(I, args, kwargs):
     return set(items)
 
 
+@model(__import__("asyncio").iscoroutine)
+def m_iscoroutine(I, args, kwargs):
+    from .interp import Coro
+
+    return isinstance(args[0], Coro)
+
+
 @model(__import__("functools").partial)
 def m_partial(I, args, kwargs):
     from .interp import PartialVal
